@@ -119,7 +119,7 @@ CHECKS.update({
 
 CHECKS.update({
     "C12": dict(
-        text="Api.tla states the request surface as a decision table: every request class is valid or ill-formed, the only outcomes are Ok (valid classes) and Err (no effect), the process stays alive and comes back alive after kill -9 + restart replaying its logs (TLC: Alive / NoPoison hold with validation, counterexamples without). 76 request classes covering every RPC of DatasetManager, DataManager (including the partition-level ones) and Search - malformed / short / long / empty ids, unknown datasets, wrong / zero dimensions, NaN / Inf, over-long and over-numerous metadata, k = 0 and huge k, batch sizes 0 / 100 / 101, bad items inside batches, zero partition / replica counts, unknown space, foreign partition ids, and updates / batch updates / removes of items that exist with empty, short, long and NaN vectors, over-long metadata and duplicate ids (so that the apply path really runs) - are each fired at a real single-node server process holding a valid dataset; after the request the process must be alive and serve a valid insert + search, and after kill -9 + restart on the same directory it must start and serve again; ApiTrace accepts exactly the behaviours of the validating model.",
+        text="Api.tla states the request surface as a decision table: every request class is valid or ill-formed, the only outcomes are Ok (valid classes) and Err (no effect), the process stays alive and comes back alive after kill -9 + restart replaying its logs (TLC: Alive / NoPoison hold with validation, counterexamples without). 80 request classes covering every RPC of DatasetManager, DataManager (including the partition-level ones) and Search - malformed / short / long / empty ids, unknown datasets, wrong / zero dimensions, NaN / Inf, over-long and over-numerous metadata, k = 0 and huge k, batch sizes 0 / 100 / 101, bad items inside batches, zero partition / replica counts, unknown, negative and huge space values (a dataset that is accepted is also used), foreign partition ids, and updates / batch updates / removes of items that exist with empty, short, long and NaN vectors, over-long metadata and duplicate ids (so that the apply path really runs) - are each fired at a real single-node server process holding a valid dataset; after the request the process must be alive and serve a valid insert + search, and after kill -9 + restart on the same directory it must start and serve again; ApiTrace accepts exactly the behaviours of the validating model. On a cluster of three real servers the partition-level RPCs are also sent to members that know the partition but do not host it: every node has to survive them.",
         note="Model-driven exploration over request feature classes, not exhaustive over protobuf values; one class per server process (sequences of classes only through the set-up + probe requests around it).",
         technique="TLA+ decision-table model (TLC) + request classes on real server processes with kill -9 / restart + TLC trace validation", ref="5/C12"),
 })
